@@ -4,7 +4,18 @@ import Tahoe.Immutable.SysLemmas
 import Tahoe.Immutable.FetchLemmasC46
 import Tahoe.Immutable.FinderLemmas
 /-! C03 — immutable availability with k good shares (property theorems over the SegmentFetcher
-event system `Tahoe.Fetch`; helper lemmas in `Tahoe/Immutable/FetchLemmas*.lean`).
+event system `Tahoe.Fetch`, the ShareFinder event system `Tahoe.Finder`, one read `Tahoe.Fetch.Seg`
+and the composed system `Tahoe.Fetch.Sys`; helper lemmas in `Tahoe/Immutable/FetchLemmas*.lean`,
+`FinderLemmas.lean`, `SegLemmas.lean`, `SysLemmas.lean`).
+
+As built: 9 theorems — `enough_good_shares_succeed`, `too_few_fail` (fetcher, both halves of the
+statement), `genuine_segment_is_accepted`, `composed_read_delivers_exact_range`,
+`composed_step_writes_contiguous` (what a read delivers, whatever the segment-size guess),
+`got_shares_always_recorded`, `new_fetcher_starts_with_known_live_shares` (node share set),
+`finder_answers_every_hungry`, `finder_asks_each_server_once` (finder).  Fetcher and finder models are
+tied to fetcher.py / finder.py by per-event state comparison (`fetch`, `finder` lines of
+`Drv/C03.lean`).  Still assumed: the Share state machine (share.py); still open:
+`read_succeeds_partial` (below).
 
 `Fair good k es` (`Tahoe/Immutable/FetchEnv.lean`): `es` is a complete run of a well-behaved
 environment — the finder announces each share once and then says `no_more_shares`; every share whose
